@@ -311,15 +311,16 @@ def check_flatten_rebinding(ctx):
                             tv, 'update')
                         if T.has_call(tv, 'sorted'):
                             sorted_ok = True
-                    if not (sorted_ok and union_ok):
+                    # (sorting is not required: every consumer turns the
+                    # list into a set and the cache writer co-sorts it)
+                    if not union_ok:
                         ok_all = False
                         detail = ('the flattened marker list is not the '
-                                  'sorted union of all groups '
-                                  f'(union={union_ok}, sorted={sorted_ok})')
+                                  'union of all groups')
             ctx.ob(rule, '_run_mapping:flatten', fi.loc(c), ok_all,
                    "under flatten the tree and the marker table are "
-                   "rebound together; the table is {'None': sorted union "
-                   "of all groups}" if ok_all else detail)
+                   "rebound together; the table is {'None': union of "
+                   "all groups}" if ok_all else detail)
 
 
 def _controlling_if(stmt):
